@@ -54,6 +54,12 @@ CHECKS = {
  "C12": dict(cat="model_checking", ref="§5/C12",
    text="SchemaModel.tla's WellFormed is the conjunction of the checked schema rules (one predicate each); Breaks is a catalogue of ~75 violations (rule x site: base definition / `extend` piece / behind wrappers / interface vs object / field vs argument vs input field vs directive argument / default vs custom root names / duplicates / missing implementations / syntax errors). TLC applies every break to the base model and to each 1-step variation and checks R1_Broken (the targeted predicate is false). create_engine must raise for each of the ~3000 broken models (through all four supply routes in rotation).",
    technique="TLA+ schema rule predicates + break catalogue (SchemaModel.tla), TLC exhaustive (model x rule x site), cook of every broken model"),
+ "C13": dict(cat="model_checking", ref="§5/C13",
+   text="Directives.tla predicts, for a tagging directive whose every hook leaves a mark on the string it passes on, the exact string a resolver receives and the exact string in data, from the documented composition order (input value -> type-level input hooks -> input-field -> input-object -> argument -> field hooks (query-side wrapping schema-side) -> resolver -> output type hooks -> serialisation, first declared outermost) and the set of hook invocations (each instance exactly once). TLC checks that literal, variable and nested-variable spellings run the same hooks and the instance counts, over every configuration of 0..2 instances at 9 locations with <= 2 (thorough 3) instances overall plus the all-2 configuration; a schema is cooked per configuration and 8 request kinds are executed and compared (strings and hook log).",
+   technique="TLA+ hook-chain model with order-revealing marks (Directives.tla) + TLC enumeration of configurations + replay through real directive classes"),
+ "C17": dict(cat="model_checking", ref="§5/C17",
+   text="Registry.tla models the process-wide registry keyed by schema name and the rule that a cooked engine depends on registry[its name] only; TLC enumerates every interleaving of the registration and cook steps of 2 and 3 bundles (20 + 1680 histories) and checks Independent / NoLeak. Every history is executed in one Python process with bundles that share ALL type, field, scalar, directive and subscription names but tag every value with their identity (resolver, type resolver, scalar, directive, subscription source); each engine's probe answers must name its own bundle. A sample of histories is re-run in fresh processes with bundle 1 on the implicit \"default\" schema name.",
+   technique="TLA+ registry model (Registry.tla) + TLC exhaustive interleavings of registration/cook steps + replay in-process and in fresh processes"),
 }
 NOT_YET = {}
 
